@@ -35,7 +35,7 @@ CFG = {
                   "behind after a handler timeout is not a connection goroutine and is outside this model (C16 covers it). "
                   "Held backend calls last 300-700 ms, well below Stop's 5 s grace: a backend call that outlasts the grace period "
                   "(Stop then returns an error with the request still running) is outside what the stream samples. "
-                  "Close||Unexport and Close||Close write AbsfsNFS.exportServer from both goroutines (a data race in the library, which "
-                  "does not document concurrent use of the two): they are left out of the -race build of the thorough tier. "
+                  "Close||Unexport and Close||Close used to race on AbsfsNFS.exportServer (found by these schedules, repaired by a fix: "
+                  "commit - see known_findings.txt); all overlapping pairs now run in both tiers, the thorough one under -race. "
                   "Trusted: Coq kernel, Model/ConnLTS.v, harness/cmd/drive_lts, verif_hooks_lts.go, the goroutine-dump filter.",
 }
